@@ -23,18 +23,79 @@ ExM4(re, im, pi, ip) ==
     IN IF pi = R0 /\ ip = R0 THEN a
        ELSE MAdd(a, MMul(CPI, IF ip = R0 THEN MFromRat(pi)
                               ELSE MAdd(MFromRat(pi), MMul(MI, MFromRat(ip)))))
+\* ---- monomial (polar) form: some values are also known as
+\*   2^(e2/6) * 3^(e3/6) * 5^(e5/6) * 7^(e7/6) * exp(i*pi*t/12),   t in -11..12
+\* written <<e2, e3, e5, e7, t>> (e5, e7 multiples of 3: only square roots of 5, 7 have
+\* residues).  The principal value of a rational power of such a value is again of this
+\* form: modulus to the power, principal argument times the exponent.  NoMono = <<>>.
+NoMono == <<>>
+NormPhase(t) == LET r == t % 24 IN IF r > 12 THEN r - 24 ELSE r
+MonoOK(mo) == /\ mo[3] % 3 = 0 /\ mo[4] % 3 = 0
+              /\ \A i \in 1..4 : mo[i] >= -96 /\ mo[i] <= 96
+MonoRes(mo) == MMul(MMul(MPowInt(GG2, mo[1]), MPowInt(GG3, mo[2])),
+                    MMul(MMul(MPowInt(SS5, mo[3] \div 3), MPowInt(SS7, mo[4] \div 3)), MPowInt(ZZ, mo[5])))
+\* monomial form of a non-zero rational with {2,3,5,7}-smooth numerator and denominator
+SmoothRest(n) == StripP(StripP(StripP(StripP(n, 2), 3), 5), 7)
+RatMono(q) ==
+    IF ~RDef(q) \/ q[1] = 0 THEN NoMono
+    ELSE LET n == IAbs(q[1]) d == q[2]
+         IN IF SmoothRest(n) # 1 \/ SmoothRest(d) # 1 THEN NoMono
+            ELSE <<6 * (Vp(n, 2) - Vp(d, 2)), 6 * (Vp(n, 3) - Vp(d, 3)),
+                   6 * (Vp(n, 5) - Vp(d, 5)), 6 * (Vp(n, 7) - Vp(d, 7)), IF q[1] < 0 THEN 12 ELSE 0>>
+MonoTurn(mo, dt) == IF mo = NoMono THEN NoMono ELSE <<mo[1], mo[2], mo[3], mo[4], NormPhase(mo[5] + dt)>>
+MonoMul(a, b) == IF a = NoMono \/ b = NoMono THEN NoMono
+                 ELSE <<a[1] + b[1], a[2] + b[2], a[3] + b[3], a[4] + b[4], NormPhase(a[5] + b[5])>>
+MonoInv(a) == IF a = NoMono THEN NoMono ELSE <<-a[1], -a[2], -a[3], -a[4], NormPhase(-a[5])>>
+\* principal value of (mono)^(k/d); NoMono when an exponent leaves the lattice
+MonoPow(a, k, d) ==
+    IF a = NoMono THEN NoMono
+    ELSE IF \E i \in 1..5 : (a[i] * k) % d # 0 THEN NoMono
+    ELSE LET r == <<(a[1] * k) \div d, (a[2] * k) \div d, (a[3] * k) \div d, (a[4] * k) \div d,
+                    NormPhase((a[5] * k) \div d)>>
+         IN IF MonoOK(r) THEN r ELSE NoMono
+\* monomial form of an exact Gaussian rational on an axis or a diagonal
+MonoOfExact(re, im, pi, ip) ==
+    IF pi # R0 \/ ip # R0 THEN NoMono
+    ELSE IF im = R0 THEN RatMono(re)
+    ELSE IF re = R0 THEN MonoTurn(RatMono(RAbs(im)), IF im[1] > 0 THEN 6 ELSE -6)
+    ELSE IF RAbs(re) = RAbs(im)          \* |re| * sqrt(2) * exp(i*pi*(odd)/4)
+         THEN LET b == RatMono(RAbs(re))
+              IN IF b = NoMono THEN NoMono
+                 ELSE <<b[1] + 3, b[2], b[3], b[4],
+                        IF re[1] > 0 THEN (IF im[1] > 0 THEN 3 ELSE -3) ELSE (IF im[1] > 0 THEN 9 ELSE -9)>>
+    ELSE NoMono
+
 \* exact constructor: residues derived from the exact part
 VEx4(re, im, pi, ip, fl) ==
     IF ~RDef(re) \/ ~RDef(im) \/ ~RDef(pi) \/ ~RDef(ip) THEN VUndef
     ELSE [t |-> "num", re |-> re, im |-> im, pi |-> pi, ip |-> ip,
-          m |-> ExM4(re, im, pi, ip), fl |-> fl]
+          m |-> ExM4(re, im, pi, ip), fl |-> fl, mo |-> MonoOfExact(re, im, pi, ip)]
 VEx(re, im, pi, fl) == VEx4(re, im, pi, R0, fl)
 \* general constructor: exact part dropped when incomplete
 VMk4(re, im, pi, ip, m, fl) ==
     IF ~MDef(m) THEN VUndef
     ELSE IF ~RDef(re) \/ ~RDef(im) \/ ~RDef(pi) \/ ~RDef(ip)
-         THEN [t |-> "num", re |-> RU, im |-> RU, pi |-> RU, ip |-> RU, m |-> m, fl |-> fl]
-         ELSE [t |-> "num", re |-> re, im |-> im, pi |-> pi, ip |-> ip, m |-> m, fl |-> fl]
+         THEN [t |-> "num", re |-> RU, im |-> RU, pi |-> RU, ip |-> RU, m |-> m, fl |-> fl, mo |-> NoMono]
+         ELSE [t |-> "num", re |-> re, im |-> im, pi |-> pi, ip |-> ip, m |-> m, fl |-> fl,
+               mo |-> MonoOfExact(re, im, pi, ip)]
+\* attach a monomial form to a finite value
+WithMono(v, mo) == IF v.t = "num" /\ mo # NoMono /\ MonoOK(mo) THEN [v EXCEPT !.mo = mo] ELSE v
+\* the value of a monomial form (exact part when it is rational or i times rational)
+VFromMono(mo, fl) ==
+    IF mo = NoMono \/ ~MonoOK(mo) THEN VUndef
+    ELSE LET m == MonoRes(mo)
+             rat == \A i \in 1..4 : mo[i] % 6 = 0
+             mag == IF rat
+                    THEN RMul(RMul(RPowInt(<<2, 1>>, mo[1] \div 6), RPowInt(<<3, 1>>, mo[2] \div 6)),
+                              RMul(RPowInt(<<5, 1>>, mo[3] \div 6), RPowInt(<<7, 1>>, mo[4] \div 6)))
+                    ELSE RU
+             base == CASE ~RDef(mag) -> VMk4(RU, RU, RU, RU, m, fl)
+                       [] mo[5] = 0 -> VMk4(mag, R0, R0, R0, m, fl)
+                       [] mo[5] = 12 -> VMk4(RNeg(mag), R0, R0, R0, m, fl)
+                       [] mo[5] = 6 -> VMk4(R0, mag, R0, R0, m, fl)
+                       [] mo[5] = -6 -> VMk4(R0, RNeg(mag), R0, R0, m, fl)
+                       [] OTHER -> VMk4(RU, RU, RU, RU, m, fl)
+         IN WithMono(base, mo)
 VMk(re, im, pi, m, fl) == VMk4(re, im, pi, R0, m, fl)
 VRes(m, fl) == VMk4(RU, RU, RU, RU, m, fl)
 VRat(q) == VEx(q, R0, R0, 0)
@@ -63,7 +124,8 @@ RealSign(v) ==
             ELSE IF RSign(lo) = RSign(hi) /\ RSign(lo) # 0 THEN RSign(lo) ELSE 2
 
 VNeg(a) ==
-    CASE a.t = "num" -> VMk4(RNeg(a.re), RNeg(a.im), RNeg(a.pi), RNeg(a.ip), MNeg(a.m), a.fl)
+    CASE a.t = "num" -> WithMono(VMk4(RNeg(a.re), RNeg(a.im), RNeg(a.pi), RNeg(a.ip), MNeg(a.m), a.fl),
+                                 MonoTurn(a.mo, 12))
       [] a.t = "oo" -> VNOO
       [] a.t = "noo" -> VOO
       [] a.t = "zoo" -> VZOO
@@ -98,13 +160,14 @@ VMul(a, b) ==
     ELSE IF IsNum(a) /\ IsNum(b)
          THEN LET m == MMul(a.m, b.m)
                   fl == MaxFl(a, b)
-              IN IF Exact(a) /\ Exact(b)
-                 THEN IF ExactGauss(a) /\ ExactGauss(b)
-                      THEN VMk(ExMulRe(a, b), ExMulIm(a, b), R0, m, fl)
-                      ELSE IF ExactGauss(a) THEN GaussScale(a, b, m, fl)
-                      ELSE IF ExactGauss(b) THEN GaussScale(b, a, m, fl)
-                      ELSE VRes(m, fl)
-                 ELSE VRes(m, fl)
+                  r == IF Exact(a) /\ Exact(b)
+                       THEN IF ExactGauss(a) /\ ExactGauss(b)
+                            THEN VMk(ExMulRe(a, b), ExMulIm(a, b), R0, m, fl)
+                            ELSE IF ExactGauss(a) THEN GaussScale(a, b, m, fl)
+                            ELSE IF ExactGauss(b) THEN GaussScale(b, a, m, fl)
+                            ELSE VRes(m, fl)
+                       ELSE VRes(m, fl)
+              IN WithMono(r, MonoMul(a.mo, b.mo))
     ELSE IF IsNum(a) \/ IsNum(b)
          THEN LET f == IF IsNum(a) THEN a ELSE b      \* the finite factor
                   i == IF IsNum(a) THEN b ELSE a      \* the infinity
@@ -123,8 +186,8 @@ VInv(a) ==
            IF ExactZero(a) THEN VZOO
            ELSE IF ExactGauss(a)
                 THEN LET nn == RAdd(RMul(a.re, a.re), RMul(a.im, a.im))
-                     IN VMk(RDiv(a.re, nn), RNeg(RDiv(a.im, nn)), R0, MInv(a.m), a.fl)
-                ELSE VRes(MInv(a.m), a.fl)
+                     IN WithMono(VMk(RDiv(a.re, nn), RNeg(RDiv(a.im, nn)), R0, MInv(a.m), a.fl), MonoInv(a.mo))
+                ELSE WithMono(VRes(MInv(a.m), a.fl), MonoInv(a.mo))
       [] a.t \in {"oo", "noo", "zoo"} -> V0
       [] a.t = "nan" -> VNAN
       [] OTHER -> VUndef
@@ -165,7 +228,13 @@ VPow(b, e) ==
     ELSE IF IsNum(e) /\ ExactZero(e) THEN (IF IsNum(b) THEN V1 ELSE VUndef)
     ELSE IF IsNum(b) /\ IsNum(e)
          THEN IF ExactRat(e) /\ e.re[2] = 1 THEN VPowInt(b, e.re[1])
-              ELSE IF ExactRat(e) THEN VRootPow(b, e.re[1], e.re[2])
+              ELSE IF ExactRat(e)
+                   THEN LET k == e.re[1] d == e.re[2]
+                            r == VRootPow(b, k, d)
+                            mo == MonoPow(b.mo, k, d)
+                        IN IF r.t = "num" THEN WithMono(r, mo)
+                           ELSE IF r.t = "undef" /\ mo # NoMono THEN VFromMono(mo, b.fl)
+                           ELSE r
               ELSE IF b = V1 THEN V1
               ELSE VUndef
     ELSE IF IsNum(e) /\ ExactRat(e) /\ e.re[2] = 1 /\ ~IsNum(b)
